@@ -274,6 +274,20 @@ class GhostBackend:
         n = D[0] if isinstance(D, (tuple, list)) else D
         return self._rec('zeros', n, (), (D,))
 
+    def ones(self, D, dtype='float64', **kw):
+        n = D[0] if isinstance(D, (tuple, list)) else D
+        return self._rec('ones', n, (), (D,))
+
+    def delete(self, data, sl):
+        # np.delete(x, slice(*sl)): removes the elements of the interval (clipped to the array: must lie inside it)
+        self._req('delete', 'interval-inside-the-array', And(0 <= sl[0], sl[0] <= sl[1], sl[1] <= data.size))
+        return self._rec('delete', data.size - (sl[1] - sl[0]), (data,), (sl,))
+
+    def insert(self, data, start, values):
+        # np.insert(x, start, values): position must be a valid insertion point
+        self._req('insert', 'position-inside-the-array', And(0 <= start, start <= data.size))
+        return self._rec('insert', data.size + values.size, (data, values), (start,))
+
     def get_shape(self, data):
         return (data.size,)
 
